@@ -92,26 +92,26 @@ theorem elem_comp_ok (types : List Elem) : ∀ fuel, ElemOK types fuel ∧ CompO
           · simp only [Except.ok.injEq, Prod.mk.injEq] at h
             obtain ⟨rfl, rfl⟩ := h
             exact ⟨within_single _ _ _ (Nat.le_refl _) (Nat.le_refl _), sortedN_single _⟩
-      | enum n enc o =>
+      | enum n enc o vs atr =>
         simp only [elemLeaves, bind, Except.bind] at h
         split at h
         · simp at h
         · simp only [Except.ok.injEq, Prod.mk.injEq] at h
           obtain ⟨rfl, rfl⟩ := h
           exact ⟨within_single _ _ _ (Nat.le_refl _) (Nat.le_refl _), sortedN_single _⟩
-      | set n enc o =>
+      | set n enc o cs atr =>
         simp only [elemLeaves, bind, Except.bind] at h
         split at h
         · simp at h
         · simp only [Except.ok.injEq, Prod.mk.injEq] at h
           obtain ⟨rfl, rfl⟩ := h
           exact ⟨within_single _ _ _ (Nat.le_refl _) (Nat.le_refl _), sortedN_single _⟩
-      | ref n ty o =>
+      | ref n ty o atr =>
         simp only [elemLeaves] at h
         split at h
         · simp at h
         · exact ihE _ _ _ _ _ h
-      | composite n o elems =>
+      | composite n o elems atr =>
         simp only [elemLeaves] at h
         have := ihC _ _ _ _ _ _ h
         simp only [Nat.add_zero] at this
@@ -255,7 +255,7 @@ mutual
   theorem group_ok (types : List Elem) (g : GroupDef) (r : NGroup)
       (h : resolveGroup types g = .ok r) : WFG r ∧ SortedG r := by
     match g with
-    | .mk name id dimType bl fields groups datas =>
+    | .mk name id dimType bl fields groups datas atr =>
       simp only [resolveGroup] at h
       split at h
       · simp at h
